@@ -106,7 +106,6 @@ Proof.
   destruct k; [apply (ks_key p p a IH)|apply (ks_idx p p i i IH)].
 Qed.
 
-Definition is_rep (e : entry) : bool := rkind_eqb (ekind e) KRepetition.
 
 Section Rep.
 Variable H : pystr -> pystr.
@@ -970,3 +969,21 @@ Theorem run_io_rep_text_projection H udiff skip excl c pairs verbose t1 t2 :
           (filter (visible verbose) (fst (run_diff_io H udiff skip excl c true pairs t1 t2)))
           (text_view verbose (fst (run_diff_io H udiff skip excl c true pairs t1 t2))).
 Proof. intros. apply text_is_projection. apply run_io_rep_shape; assumption. Qed.
+
+(* ---- the repetition_change category of the text view of a run: one record per
+   level, in order, under the level's path, value = the level's t1, and the
+   indexes are the positions of the level's hash in the two lists ---- *)
+Theorem run_io_rep_text_payload H udiff skip excl c pairs t1 t2 :
+  wf t1 = true -> wf t2 = true ->
+  let r := run_diff_io H udiff skip excl c true pairs t1 t2 in
+  Forall2 (fun e t => trpath t = render (ep1 e) /\ trval t = opt_val (et1 e) /\
+                      exists rc, rep_rec_ok H c t1 t2 e rc /\ trold t = rold rc /\ trnew t = rnew rc)
+          (filter is_rep (fst r))
+          (rep_view (fst r) (map (fun x => (rpath x, rold x, rnew x)) (snd r))).
+Proof.
+  intros W1 W2. cbv zeta. pose proof (run_io_rep_payload H udiff skip excl c pairs t1 t2 W1 W2) as F.
+  unfold rep_view. set (l := filter is_rep (fst (run_diff_io H udiff skip excl c true pairs t1 t2))) in *.
+  set (rs := snd (run_diff_io H udiff skip excl c true pairs t1 t2)) in *. clearbody l rs.
+  induction F as [|e rc l rs Hr _ IH]; cbn; constructor; [|exact IH].
+  cbn. split; [reflexivity|]. split; [reflexivity|]. exists rc. split; [exact Hr|split; reflexivity].
+Qed.
